@@ -607,7 +607,19 @@ func c14CheckText(rt *rapid.T, rec *vstat.Rec, txt *c14Text, s, r string, t0, t1
 	}
 	if strings.HasPrefix(problem, "LENGTH") && strings.HasSuffix(c14BlameUnfaithful(txt), "form=other}") {
 		// (with a known serialisation hazard in the text the values may simply be misaligned)
-		return fail("C14/unfaithful{form=randomblob-length}", "randomblob(n) replaced by a blob of the wrong length", "%s:\n in: %s\nout: %s", problem, s, r)
+		kind := "int"
+		for _, site := range covered {
+			// the first claimed randomblob site whose literal is not a plain decimal integer names the class
+			if site.kind() == "randomblob" && site.NKind != "int" && strings.Contains(problem, "randomblob("+site.Args[0]+")") {
+				kind = site.NKind
+				break
+			}
+		}
+		sig := "C14/unfaithful{form=randomblob-length}"
+		if kind != "int" {
+			sig = "C14/unfaithful{form=randomblob-length,n=" + kind + "}"
+		}
+		return fail(sig, "randomblob(n) replaced by a blob of the wrong length", "%s:\n in: %s\nout: %s", problem, s, r)
 	}
 	if problem != "" {
 		sig := c14BlameUnfaithful(txt)
